@@ -61,6 +61,8 @@ def base_specs(ctx, n):
             mon.add_heat_consumer_bridge(rng, sp)
         if prof != "heat":
             mon.add_sole_link(rng, sp)          # every kind as the only link, both orientations, over the base nets
+        if prof == "heat" or rng.random() < 0.5:
+            mon.add_oos_supplies(rng, sp)       # switched-off pumps / ext grids next to live ones (flags enumerated)
         out.append(sp)
     return out
 
@@ -93,8 +95,12 @@ def corr_patterns(ctx):
             try:
                 txt, info, obs = cc.conn_case(net, check=True)
             except Exception as e:  # noqa: BLE001
-                ctx.broken("correspondence", "capture of the real connectivity state", repr(e)[:400])
-                return
+                # the set-up stages of pipeflow on a valid net must not raise (only identify may, handled above)
+                ctx.violation({"monitor": "exception", "exception": type(e).__name__, "stage": "setup"},
+                              "create_lookups / initialize_pit on a valid net raises %r" % (e,),
+                              {"kind": "connectivity", "net": sp, "flags": [list(f) for f in flags],
+                               "bits": [int(b) for b in bits]})
+                continue
             conn.append(txt)
             meta.append((sp, flags, bits))
             nontrivial = (not info["failed"]) and info["unsupplied_nodes"] > 0
